@@ -34,6 +34,8 @@ type Points struct {
 
 	logPoints bool // emit a "point" event for every occurrence (enumeration engines)
 
+	freezing map[string]bool // a crash of this node is being taken: its goroutines stop at their next point
+
 	fsMu sync.Map // dir -> *sync.Mutex held while a snapshot is being published
 }
 
@@ -47,7 +49,7 @@ func newPoints(rc *Recorder, seed int64) *Points {
 		rc: rc, rng: rand.New(rand.NewSource(seed)),
 		counts: map[string]map[string]int{}, weights: map[string]float64{},
 		holds: map[string]chan struct{}{}, holdHit: map[string]chan struct{}{},
-		crashAt: map[string]*crashPlan{},
+		crashAt: map[string]*crashPlan{}, freezing: map[string]bool{},
 	}
 }
 
@@ -114,7 +116,10 @@ func (p *Points) count(dir, point string) int {
 // point is installed as raft.VerifPoint (and, with the log directory mapped
 // to its parent, as log.VerifPoint).
 func (p *Points) point(dir, name string) {
-	if p.rc.isDead(dir) {
+	p.mu.Lock()
+	frozen := p.freezing[dir]
+	p.mu.Unlock()
+	if frozen || p.rc.isDead(dir) {
 		// a "crashed" incarnation: stop its goroutines at the first point
 		// they reach (they can no longer affect anyone: cut off the network,
 		// events dropped, its directory has been copied)
@@ -179,6 +184,13 @@ func (p *Points) point(dir, name string) {
 		p.rc.emitNode(dir, &ev.Rec{K: "point", Point: name, Occ: occ})
 	}
 	if crash {
+		// the kill lands "now": every other goroutine of the node stops at the
+		// next point it reaches (so no acknowledgement is recorded after the
+		// image was taken); give those that are between two points a moment
+		p.mu.Lock()
+		p.freezing[dir] = true
+		p.mu.Unlock()
+		time.Sleep(3 * time.Millisecond)
 		p.doCrash(dir, name, occ)
 		select {}
 	}
@@ -197,12 +209,19 @@ func (p *Points) point(dir, name string) {
 // copy of the directory is exactly what a restarted process would find.
 func (p *Points) doCrash(dir, name string, occ int) {
 	inPublish := name == "snap.beforePublish" || name == "snap.renamed" || name == "snap.published"
+	locked := false
 	if !inPublish {
-		p.fsLock(dir).Lock()
+		// a snapshot being published finishes first - unless its goroutine is
+		// itself frozen in there: then the kill lands in the middle of it
+		for i := 0; i < 50 && !locked; i++ {
+			if locked = p.fsLock(dir).TryLock(); !locked {
+				time.Sleep(time.Millisecond)
+			}
+		}
 	}
 	image := dir + ".img" + time.Now().Format("150405.000000")
 	err := copyDir(dir, image)
-	if !inPublish {
+	if locked {
 		p.fsLock(dir).Unlock()
 	}
 	r := &ev.Rec{K: "crash", Point: name, Occ: occ, Dir: image}
